@@ -410,7 +410,7 @@ def _on_alarm(signum, frame):
     raise CaseTimeout()
 
 
-def _impl_safe(chk, case, factor=1):
+def _impl_safe(chk, case, factor=1, _again=True):
     """Run chk.impl(case) under a wall-clock limit (a hanging implementation must
     not hang the check) and turn unexpected exceptions into a visible observation."""
     import signal
@@ -436,6 +436,11 @@ def _impl_safe(chk, case, factor=1):
     except BaseException as e:  # e.g. a time-limit exception of a property module raised outside its own try block
         if type(e) in (KeyboardInterrupt, SystemExit):
             raise
+        if _again and type(e).__name__ in ("_CpuTimeout", "_Timeout", "_Limit", "Watchdog"):
+            # a per-parse time limit of the property module fired in the instant between the end of the guarded call
+            # and the disarming of its timer: nothing was observed wrongly, run the case again
+            signal.alarm(0)
+            return _impl_safe(chk, case, factor, _again=False)
         return {"__crash__": f"{type(e).__name__} (not an Exception) escaped from the case", "tb": traceback.format_exc()[-1500:]}
     finally:
         signal.alarm(0)
